@@ -126,6 +126,7 @@ def run(ctx: core.Ctx) -> int:
     # guard clauses and redefinitions normalised (fv.normast)
     from .. import normast
     nz = normast.Normaliser(normast.class_resolver(mod, cls, module_funcs="small"), consts=normast.module_constants(mod), namedtuples=normast.module_namedtuples(mod))
+    tr = rows_by_index(tr)
     tr = nz.function(tr)
     for h in nz.inlined:
         ctx.functions.append(f"python.{CLS}.{h} (inlined into transform)")
@@ -505,6 +506,47 @@ def run(ctx: core.Ctx) -> int:
     _c15pp.gen_pure(ctx, {"python": "py/formak/python.py", "common": "py/formak/common.py"}, rule="PY-PURE", floor=40)
     return core.finish(ctx, explanation="structural (def-use resolved) rules on the adapter's row consumption and call sequence, E3 normal form of the "
                                         "NIS and score, effect analysis", **META)
+
+
+def rows_by_index(fn):
+    """ROW-ITER: `for r in X:` over the data parameter (r bound nowhere else) is `for i in range(X.shape[0])` with r = X[i]; for a 2-D array
+    `X[i][a:b]` is `X[i, a:b]`"""
+    import copy
+    data = next((a.arg for a in fn.args.args if a.arg != "self"), None)
+    if data is None:
+        return fn
+    stores = {}
+    for n in ast.walk(fn):
+        if isinstance(n, ast.Name) and isinstance(n.ctx, ast.Store):
+            stores[n.id] = stores.get(n.id, 0) + 1
+    fn = copy.deepcopy(fn)
+    k = 0
+    for lp in [x for x in ast.walk(fn) if isinstance(x, ast.For)]:
+        if not (isinstance(lp.iter, ast.Name) and lp.iter.id == data and isinstance(lp.target, ast.Name) and stores.get(lp.target.id) == 1 and not lp.orelse):
+            continue
+        if any(isinstance(x, ast.Name) and x.id == data and isinstance(x.ctx, ast.Store) for b in lp.body for x in ast.walk(b)):
+            continue
+        r, i = lp.target.id, f"row_index__{k}"
+        k += 1
+
+        class S(ast.NodeTransformer):
+            def visit_Subscript(self, n):
+                self.generic_visit(n)
+                v = n.value
+                if isinstance(v, ast.Subscript) and isinstance(v.value, ast.Name) and v.value.id == data and isinstance(v.slice, ast.Name) and v.slice.id == i \
+                        and not isinstance(n.slice, ast.Tuple):
+                    return ast.copy_location(ast.Subscript(v.value, ast.Tuple([v.slice, n.slice], ast.Load()), n.ctx), n)
+                return n
+
+            def visit_Name(self, n):
+                if n.id == r and isinstance(n.ctx, ast.Load):
+                    return ast.copy_location(ast.Subscript(ast.Name(data, ast.Load()), ast.Name(i, ast.Load()), ast.Load()), n)
+                return n
+        lp.body = [S().visit(b) for b in lp.body]
+        lp.target = ast.Name(i, ast.Store())
+        lp.iter = ast.Call(ast.Name("range", ast.Load()), [ast.Subscript(ast.Attribute(ast.Name(data, ast.Load()), "shape", ast.Load()), ast.Constant(0), ast.Load())], [])
+    ast.fix_missing_locations(fn)
+    return fn
 
 
 CONVERTERS = {"array", "asarray", "asanyarray", "ascontiguousarray", "asfarray"}
